@@ -59,6 +59,10 @@ type c17Req struct {
 	PageSize   int32                  `json:"page_size,omitempty"`
 	PageToken  string                 `json:"page_token,omitempty"`
 	Content    string                 `json:"content,omitempty"`
+	// request options every read request may carry (gRPC fields latest / snaptoken,
+	// REST query parameters of the same names): they must not change what a read does
+	Latest    bool   `json:"latest,omitempty"`
+	Snaptoken string `json:"snaptoken,omitempty"`
 }
 
 type c17Case struct {
@@ -479,6 +483,17 @@ func (g *c17Gen) request(kind string) *c17Req {
 		rq.Query = g.noMatchQuery(fl, rq.Deprecated)
 		rq.NoPayload = fl == "malformed"
 	}
+	switch g.r.IntN(5) {
+	case 0:
+		rq.Latest = true
+	case 1:
+		rq.Snaptoken = "not-a-snaptoken"
+	case 2:
+		rq.Latest, rq.Snaptoken = true, g.unseen()
+	}
+	if rq.Method == "GET" && (rq.Latest || rq.Snaptoken != "") && strings.Contains(rq.Target, "?") {
+		rq.Target += "&latest=" + fmt.Sprint(rq.Latest) + "&snaptoken=" + url.QueryEscape(rq.Snaptoken)
+	}
 	return rq
 }
 
@@ -581,7 +596,7 @@ func (x *c17Exec) do(rq *c17Req) string {
 	var err error
 	switch rq.Kind {
 	case "grpc-check":
-		req := &rts.CheckRequest{MaxDepth: rq.MaxDepth}
+		req := &rts.CheckRequest{MaxDepth: rq.MaxDepth, Latest: rq.Latest, Snaptoken: rq.Snaptoken}
 		if !rq.NoPayload {
 			t := rq.Tuples[0]
 			if rq.Deprecated {
@@ -592,15 +607,15 @@ func (x *c17Exec) do(rq *c17Req) string {
 		}
 		_, err = x.g.Check.Check(ctx, req)
 	case "grpc-batch-check":
-		req := &rts.BatchCheckRequest{MaxDepth: rq.MaxDepth}
+		req := &rts.BatchCheckRequest{MaxDepth: rq.MaxDepth, Latest: rq.Latest, Snaptoken: rq.Snaptoken}
 		for _, t := range rq.Tuples {
 			req.Tuples = append(req.Tuples, protoTuple(t))
 		}
 		_, err = x.g.Check.BatchCheck(ctx, req)
 	case "grpc-expand":
-		_, err = x.g.Expand.Expand(ctx, &rts.ExpandRequest{Subject: protoSubject(rq.Tuples[0]), MaxDepth: rq.MaxDepth})
+		_, err = x.g.Expand.Expand(ctx, &rts.ExpandRequest{Subject: protoSubject(rq.Tuples[0]), MaxDepth: rq.MaxDepth, Snaptoken: rq.Snaptoken})
 	case "grpc-list":
-		req := &rts.ListRelationTuplesRequest{PageSize: rq.PageSize, PageToken: rq.PageToken}
+		req := &rts.ListRelationTuplesRequest{PageSize: rq.PageSize, PageToken: rq.PageToken, Snaptoken: rq.Snaptoken}
 		if !rq.NoPayload {
 			if rq.Deprecated {
 				req.Query = &rts.ListRelationTuplesRequest_Query{Namespace: strOr(rq.Query.Namespace), Object: strOr(rq.Query.Object), Relation: strOr(rq.Query.Relation), Subject: rq.Query.ToProto().Subject} //nolint:staticcheck
